@@ -384,6 +384,16 @@ class C15(Check):
             if op[0] in ('insns', 'insnstext') and outcome != 'ok:n':
                 k = int(outcome.split(':')[1])
                 at = sheet.cssRules[k] if 0 <= k < len(sheet.cssRules) else None
+                io = op[4] if op[0] == 'insns' else op[5]
+                if io and at is not None:
+                    after = [r.type for r in sheet.cssRules[k + 1:]]
+                    before = [r.type for r in sheet.cssRules[:k]]
+                    if any(t in (at.CHARSET_RULE, at.IMPORT_RULE) for t in after) or \
+                            any(t in (at.VARIABLES_RULE, at.MEDIA_RULE, at.PAGE_RULE, at.STYLE_RULE, at.FONT_FACE_RULE)
+                                for t in before):
+                        bad.append(("insertRule(inOrder=True) puts an @namespace rule after @charset/@import and "
+                                    "before @variables, @media, @page, @font-face and style rules",
+                                    {'index': k, 'kinds': [r.type for r in sheet.cssRules]}))
                 if at is None or at.type != at.NAMESPACE_RULE or (at.prefix, at.namespaceURI) != (op[1], op[2]):
                     bad.append(("insertRule returns the index at which the inserted @namespace rule is",
                                 {'rule': [op[1], op[2]], 'returned': k, 'rules': pairs,
